@@ -31,6 +31,23 @@ reg('C07', 'SEQ+ENUM',
     'never asked for bytes beyond CL / never awaited after the last event, eof and tell() agree with the cursor.',
     'pure-Python streams from the working tree; blocking modelled by WouldBlock; exact io-semantics only for a buffered wsgi.input', 'DESIGN.md section 5 C07')
 
+reg('C01', 'SEQ+ENUM',
+    'bounded-exhaustive enumeration of add_route histories (accepted and rejected, lazy and eager compile) x representative paths, lockstep with a transactional reference router (interpretive DFS)',
+    'Every history of <=2 adds over 181 templates (13 segment kinds, depth <=2, 12 must-be-rejected shapes), <=3 adds over a 25-template core '
+    '(thorough: depth-3 templates, <=4 adds, quote/backslash literals) is run on a fresh CompiledRouter and on an independent reference router; '
+    'after every add the accept/reject outcome, the tree shape and every lookup over the complete representative path set of that history '
+    '(matched resource, uri_template, exact typed params; no exception) are compared.',
+    'pure-Python router from the working tree; ASCII segment alphabet without newline; built-in converters int/uuid/path', 'DESIGN.md section 5 C01')
+
+reg('C18', 'AIO+CHOICE',
+    'stateless exhaustive exploration of all interleavings of loop steps and environment events on a hand-stepped asyncio loop, invariant oracle on every state',
+    'A real falcon.asgi.App serves one WebSocket on a virtual event loop; after a deterministic handshake prelude EVERY interleaving of '
+    '{next ready loop handle, server delivery, gated application step, send completion, external cancel} is enumerated for k<=3 (thorough 4) '
+    'deliveries, capacities 0-4 and four application shapes; FIFO/lossless prefix, queue bound, disconnect ordering, no lost wake-up at idle points, '
+    'and clean termination are checked after every step and in every terminal state.',
+    'asyncio FIFO ready-queue discipline is kept (specified); held messages measured externally (pulls issued - messages returned); fake server '
+    'keeps a delivered-but-unconsumed message on cancellation like asyncio.Queue', 'DESIGN.md section 5 C18')
+
 PENDING = {}
 
 ALL = ['C%02d' % i for i in range(1, 21)]
